@@ -241,13 +241,13 @@ fn strategy(lo: usize, hi: usize, extra: usize) -> BoxedStrategy<Case> {
         cfg_among(&SK, 512, no_mult)
             .prop_flat_map(move |cfg| {
                 let n = cfg.n();
-                (Just(cfg), prop_oneof![3 => stream(Domain::PositiveGrid, lo, (4 * n + 50).min(hi).max(lo) + extra), 1 => stream(Domain::Positive, lo, (4 * n + 50).min(hi).max(lo) + extra)])
+                (Just(cfg), prop_oneof![3 => stream(Domain::PositiveGrid, lo, (4 * n + 50).max(hi.min(400)).max(lo) + extra), 1 => stream(Domain::Positive, lo, (4 * n + 50).max(hi.min(400)).max(lo) + extra)])
             })
             .prop_map(|(cfg, s)| Case { cfg, scalar: true, xs: xs(&s.vals), bars: vec![] }),
         cfg_among(&BK, 512, no_mult)
             .prop_flat_map(move |cfg| {
                 let n = cfg.n();
-                (Just(cfg), prop_oneof![3 => bar_stream(true, lo, (4 * n + 50).min(hi).max(lo) + extra), 1 => bar_stream(false, lo, (4 * n + 50).min(hi).max(lo) + extra)])
+                (Just(cfg), prop_oneof![3 => bar_stream(true, lo, (4 * n + 50).max(hi.min(400)).max(lo) + extra), 1 => bar_stream(false, lo, (4 * n + 50).max(hi.min(400)).max(lo) + extra)])
             })
             .prop_map(|(cfg, s)| Case { cfg, scalar: false, xs: vec![], bars: s.bars }),
     ]
@@ -291,7 +291,5 @@ pub fn run(g: &mut Global) {
     );
     let hi = g.tier.pick(400usize, 3000usize);
     g.random("random", g.tier.pick(60000, 400000), &move || strategy(1, hi, 0), &check);
-    if g.tier == Tier::Thorough {
-        g.random("long", 600, &|| strategy(5000, 10000, 0), &check);
-    }
+    g.random("long", g.tier.pick(48, 600), &|| strategy(5000, 10000, 0), &check);
 }
